@@ -196,7 +196,7 @@ Example C05_sides_nonvacuous :
   st_areas (run_steps Z 0 Z.add Z.opp true (firstn 7 steps) s0) = [(1, 2); (3, 3); (4, 5); (5, 1)] /\
   st_total (run_steps Z 0 Z.add Z.opp true (firstn 7 steps) s0) = 5.
 Proof.
-  split; [|repeat split].
+  split; [|split; [|split; [|split]]]; try (vm_compute; reflexivity).
   cbn. unfold side_ok. cbn. repeat split; try (repeat constructor; cbn; intuition lia); cbn; intuition lia.
 Qed.
 (* the seeded defect: the same side evaluations made with apply_to_combi_result report 11 + 7 - 2 + 1 + 6 = 23 *)
@@ -243,3 +243,131 @@ Proof.
   cbv zeta. eexists. split; [right; left; reflexivity|]. cbn [fst snd]. intro H. apply (f_equal (fun x => Qcanon.this x)) in H. vm_compute in H. discriminate.
 Qed.
 Print Assumptions C05_rule_memoised_per_scheme_refuted.
+
+(* ---- the published rule on the dimension-wise MODEL of C03/C04 (Model/DimWise.v, DimWiseExact.v; Model/AccumDW.v) ----
+   the component rules are no longer a parameter: they are the tensor products of the 1D trapezoidal weights over the stripes of the
+   CURRENT refinement (dw_stripe_coords), end points stripped when boundary=False, times the combination coefficient.  For EVERY
+   state of the dimension-wise model and every product integrand the published combined rule applied to the integrand is
+   dw_combi_integral (what Integration.calculate_operation_dimension_wise accumulates) ... *)
+From SG Require Import Model.CombiScheme Model.RefTree Model.DimWise Model.DimWiseInterp Model.DimWiseExact Model.AccumDW Proofs.AccumDWProofs.
+
+Theorem C05_dw_published_rule_is_combi_integral : forall o mb st a b gs sch,
+  dw_wf st a b gs -> dw_published o mb st a b = Some sch ->
+  dw_combi_integral o mb st a b gs = Some (apply_rule (f_prod gs) (combined_rule sch)).
+Proof. exact dw_rule_is_combi_integral. Qed.
+(* ... it is the value the driver's accumulator holds after the evaluation of that state, whatever happened before ... *)
+Theorem C05_dw_published_rule_is_reported : forall o mb st a b gs sch (s : astate Qc),
+  dw_wf st a b gs -> dw_published o mb st a b = Some sch ->
+  Some (st_total (evaluate_dw Qc 0%Qc Qcplus Qcopp (Accum.contributions (f_prod gs) sch) s)) = dw_combi_integral o mb st a b gs /\
+  st_total (evaluate_dw Qc 0%Qc Qcplus Qcopp (Accum.contributions (f_prod gs) sch) s) = apply_rule (f_prod gs) (combined_rule sch).
+Proof. exact dw_rule_is_reported. Qed.
+(* ... in particular in every state reached by a run of the dimension-wise model (any refinement history) *)
+Theorem C05_dw_published_rule_along_run : forall o mb a b gs steps st0,
+  Forall (fun st => dw_wf st a b gs -> forall sch, dw_published o mb st a b = Some sch ->
+                    dw_combi_integral o mb st a b gs = Some (apply_rule (f_prod gs) (combined_rule sch)))
+         (dw_states o steps st0).
+Proof. exact dw_rule_is_reported_along_run. Qed.
+(* one component grid: tensor rule over its stripes applied to the product integrand = its component integral *)
+Theorem C05_dw_component_rule_is_component_integral : forall o mb st a b (l : lv) gs r,
+  length a = length gs -> length b = length gs -> length l = length gs ->
+  dw_comp_rule o mb st a b l = Some r -> dw_comp_integral o mb st a b l gs = Some (apply_rule (f_prod gs) r).
+Proof. exact dw_comp_rule_integral. Qed.
+Print Assumptions C05_dw_published_rule_is_combi_integral.
+Print Assumptions C05_dw_published_rule_is_reported.
+Print Assumptions C05_dw_published_rule_along_run.
+Print Assumptions C05_dw_component_rule_is_component_integral.
+
+(* non-vacuity: the initial state of dimension 2, lmin 1, lmax 2 on [0,1]^2 has a published rule (3 component grids, 21 weighted
+   points) and for f(x,y) = x^2 * y it gives 11/64 = dw_combi_integral *)
+Definition c05_o : dw_opts := mkOpts 6 true true (Q2Qc (9 # 10)) (fun _ _ _ => false) (fun _ _ => false).
+Definition c05_gs : list (Qc -> Qc) := [fun x => (x * x)%Qc; fun y => y].
+Example C05_dw_published_rule_example :
+  match dw_init 2 1 2 [0%Qc; 0%Qc] [1%Qc; 1%Qc] with
+  | Some st =>
+    match dw_published c05_o false st [0%Qc; 0%Qc] [1%Qc; 1%Qc] with
+    | Some sch => (length sch = 3%nat /\ length (combined_rule sch) = 39%nat /\
+                   Qc_eqb (apply_rule (f_prod c05_gs) (combined_rule sch)) (Q2Qc (11 # 64)) = true /\
+                   match dw_combi_integral c05_o false st [0%Qc; 0%Qc] [1%Qc; 1%Qc] c05_gs with
+                   | Some v => Qc_eqb v (Q2Qc (11 # 64)) = true | None => False end /\
+                   dw_wf st [0%Qc; 0%Qc] [1%Qc; 1%Qc] c05_gs)
+    | None => False
+    end
+  | None => False
+  end.
+Proof.
+  vm_compute. repeat split; repeat constructor.
+Qed.
+
+(* ---- extend-split: the independent recomputation of the check as a function of the C07 model state (Model/AccumES.v) ----
+   es_recompute F st = sum over the live areas of st of the coefficient-weighted sum of F (= the operation on one component grid on
+   one box) over the area's local combination under the CURRENT scheme.  The accumulator machine is coupled to concrete per-area
+   values val (REFINEMENT of Accum's abstract parts): every history of evaluate / refine / scheme-extension steps keeps every
+   evaluated area's stored result equal to val under the current scheme ... *)
+From SG Require Import Model.ExtendSplit Model.AccumES Proofs.AccumESProofs.
+
+Section C05es.
+  Variable V : Type.
+  Variable vzero : V.
+  Variable vadd : V -> V -> V.
+  Variable vopp : V -> V.
+  Hypothesis vadd_assoc : forall a b c, vadd a (vadd b c) = vadd (vadd a b) c.
+  Hypothesis vadd_comm : forall a b, vadd a b = vadd b a.
+  Hypothesis vadd_0_l : forall a, vadd vzero a = a.
+  Hypothesis vadd_opp_r : forall a, vadd a (vopp a) = vzero.
+
+  Theorem C05_coupled_run : forall steps vs,
+    Coupled V vzero vadd (fst vs) (snd vs) -> crun_ok V vzero vadd vopp vs steps ->
+    Coupled V vzero vadd (fst (fold_left (capply V vzero vadd vopp) steps vs)) (snd (fold_left (capply V vzero vadd vopp) steps vs)).
+  Proof. exact (coupled_run V vzero vadd vopp vadd_assoc vadd_comm vadd_0_l vadd_opp_r). Qed.
+  (* ... so at every stop the reported value (and the container value) is the recomputation: the sum over the current areas of
+     their values under the current scheme *)
+  Theorem C05_coupled_total : forall val s, Coupled V vzero vadd val s -> st_new s = [] ->
+    st_total s = vsum V vzero vadd (map (fun p => val (fst p)) (st_areas s)) /\ st_cont s = st_total s.
+  Proof. exact (coupled_total V vzero vadd). Qed.
+End C05es.
+(* on the extend-split model: accumulator = es_recompute *)
+Theorem C05_es_accumulator_is_recomputation : forall (F : box -> lv -> Qc) (st : state) (area_of : Z -> area) (s : astate Qc),
+  Coupled Qc 0%Qc Qcplus (fun id => es_area_value F (st_cp st) (area_of id)) s -> st_new s = [] ->
+  es_live st = map area_of (map fst (st_areas s)) ->
+  st_total s = es_recompute F st /\ st_cont s = es_recompute F st.
+Proof. exact es_accumulator_is_recomputation. Qed.
+(* coarsening version 0 discharges the scheme-extension step (CRescheme) for ALL dimensions >= 2, levels, coarsening values and
+   operations F: lmax + 1 together with coarsening + 1 (update_area) leaves the value of an area unchanged.  Versions 1-3 have no
+   such theorem - their stored area results go stale, as observed on the unchanged tree. *)
+Theorem C05_es_v0_area_value_invariant : forall (F : box -> lv -> Qc) n lmin lmax base (x : area),
+  (0 <= a_coarse x <= lmax - lmin)%Z ->
+  es_area_value F (mkCP (S (S n)) 0 lmin (lmax + 1) base) (update_area x) = es_area_value F (mkCP (S (S n)) 0 lmin lmax base) x.
+Proof. exact es_v0_area_value_invariant. Qed.
+Print Assumptions C05_coupled_run.
+Print Assumptions C05_coupled_total.
+Print Assumptions C05_es_accumulator_is_recomputation.
+Print Assumptions C05_es_v0_area_value_invariant.
+
+(* non-vacuity: the run of C05_nonvacuous coupled to concrete values, with a scheme extension that keeps the values of the current
+   areas; and a concrete area of the extend-split model (d = 2, lmin 1, lmax 3, coarsening 1) whose value is not trivial *)
+Definition zval (id : Z) : Z := match id with 1 => 2 | 2 => 4 | 3 => 3 | 4 => 5 | 5 => 1 | _ => 0 end.
+Definition zval' (id : Z) : Z := match id with 2 => 77 | _ => zval id end.     (* area 2 no longer exists: its value may change *)
+Open Scope Z_scope.
+Example C05_coupled_nonvacuous :
+  let steps := [CEvaluate zparts1; CRefine [2] [4; 5]; CEvaluate zparts2; CRescheme zval'] in
+  let vs0 := (zval, a_init Z 0 [1; 2; 3]) in
+  Coupled Z 0 Z.add zval (a_init Z 0 [1; 2; 3]) /\ crun_ok Z 0 Z.add Z.opp vs0 steps /\
+  st_total (snd (fold_left (capply Z 0 Z.add Z.opp) steps vs0)) = 11 /\
+  map (fun p => zval' (fst p)) (st_areas (snd (fold_left (capply Z 0 Z.add Z.opp) steps vs0))) = [2; 3; 5; 1].
+Proof.
+  split; [|split; [|split; vm_compute; reflexivity]].
+  - split; [apply (inv_init Z 0 Z.add Z.add_0_l); repeat constructor; cbn; intuition lia|].
+    split; [repeat constructor; cbn; intuition lia|]. intros id v Hin Hn. exfalso. apply Hn. cbn in Hin |- *.
+    destruct Hin as [E|[E|[E|[]]]]; injection E as <- _; auto.
+  - cbn. unfold refine_ok, ids. cbn.
+    repeat split; try (repeat constructor; cbn; intuition lia); try (intros id Hid; cbn in Hid; intuition (subst; reflexivity || lia)).
+Qed.
+(* a concrete area of the extend-split model: d = 2, lmin 1, lmax 3, coarsening 1; with F = 1 the value is the coefficient sum 1 of its
+   local combination (3 computed grids), and after an extend of another area (lmax 4, coarsening 2) it is literally the same *)
+Example C05_es_area_value_example :
+  let x := mkArea [0%Qc; 0%Qc] [1%Qc; 1%Qc] 1 0 1 0%Qc [] [] false in
+  length (es_area_parts (fun _ _ => 1%Qc) (mkCP 2 0 1 3 1) x) = 3%nat /\
+  Qc_eqb (es_area_value (fun _ _ => 1%Qc) (mkCP 2 0 1 3 1) x) 1%Qc = true /\
+  Qc_eqb (es_area_value (fun _ l => qc_of_Z (sumZ l)) (mkCP 2 0 1 4 1) (update_area x))
+         (es_area_value (fun _ l => qc_of_Z (sumZ l)) (mkCP 2 0 1 3 1) x) = true.
+Proof. vm_compute. repeat split. Qed.
